@@ -419,9 +419,43 @@ TOKENS_VER = ["{", "}", ";", ":", "global", "local", "*", "extern", "\"C++\"", "
               "/*", "*/", "\n", "cpp_*", "}", "};", "\x00", "(", ")", "é"]
 
 
+EXPR_CONSTS = ["0", "1", "2", "-1", "~0", "(1 << 63)", "0x8000000000000000", "0x7fffffffffffffff", "0xffffffffffffffff",
+               "(0 - 1)", "63", "64", "65", "0x100000000", "-0x8000000000000000", "9223372036854775808", "1K", "4096M"]
+EXPR_OPS = ["/", "/", "%", "*", "+", "-", "<<", ">>", "&", "|", "==", "<", ">="]
+
+
+def hostile_expr(r, depth=0):
+    """Arithmetic at the edges of 64-bit signed/unsigned ranges: division and remainder by 0 and -1 of the
+    most negative value, shifts by 63/64/65, products that overflow, alignment to odd or huge values."""
+    if depth >= 3 or r.random() < 0.3:
+        return r.choice(EXPR_CONSTS)
+    c = r.random()
+    if c < 0.3:
+        # directed edge pairs
+        mn = r.choice(["(1 << 63)", "0x8000000000000000", "-0x8000000000000000", "(0 - 0x8000000000000000)", "(~0 << 63)"])
+        m1 = r.choice(["-1", "~0", "(0 - 1)", "0xffffffffffffffff"])
+        x = r.choice(EXPR_CONSTS)
+        return r.choice([f"({mn} / {m1})", f"({mn} % {m1})", f"({x} / 0)", f"({x} % 0)", f"({x} << 64)", f"({x} >> 65)",
+                         f"({mn} * {m1})", f"(-{mn})", f"ALIGN({x}, 0)", f"ALIGN({x}, 3)", f"ALIGN({mn}, {mn})",
+                         f"({mn} - 1)", f"(0x7fffffffffffffff + {x})"])
+    if c < 0.65:
+        return f"({hostile_expr(r, depth + 1)} {r.choice(EXPR_OPS)} {hostile_expr(r, depth + 1)})"
+    if c < 0.8:
+        return f"{r.choice(['ALIGN', 'MAX', 'MIN'])}({hostile_expr(r, depth + 1)}, {hostile_expr(r, depth + 1)})"
+    if c < 0.9:
+        return f"{r.choice(['-', '~', '!'])}{hostile_expr(r, depth + 1)}"
+    return f"({hostile_expr(r, depth + 1)} ? {hostile_expr(r, depth + 1)} : {hostile_expr(r, depth + 1)})"
+
+
 def mutate_text(r, text, tokens, kind):
     c = r.random()
     b = text
+    if kind == "linker-script" and r.random() < 0.15:
+        e = hostile_expr(r)
+        return r.choice([f'ASSERT({e} != 12345, "m")\n', f"sym_x = {e};\n",
+                         f"SECTIONS {{ . = {e}; .text : {{ *(.text .text.*) }} }}\n",
+                         f"SECTIONS {{ .text : {{ *(.text .text.*) }} . = ALIGN({e}); .data : {{ *(.data) }} }}\n"]), \
+            f"text.{kind}:hostile-expression"
     if c < 0.25:
         # token soup
         n = r.randint(1, 40)
